@@ -34,6 +34,7 @@ F = [
     ("C16", "fix: P1 reader lost readouts", "P1 reader lost more than the first readout after noise when the 8191-octet guard tripped in the middle of a later readout"),
     ("C17", "fix: ConnectionManager.close()", "connect attempt started after close() (orphaned back-off task), transport obtained concurrently with close() never closed, closing-event waiter tasks leaked per reconnect cycle"),
     ("C15", "fix: P1 data block parser looped", "DataSet.parse_data_block looped for ever with unbounded allocation on '1.0(5', '1.0(5)xyz', 'a*('"),
+    ("C07", "fix: Aidon register scaling no longer depends", "Aidon decoding multiplied the register by 10^exponent under the calling thread's decimal context: with decimal.getcontext().prec = 6 the register 10049926 (Wh) decoded as 10049900.0, 230.7 V as 231.0 at prec 3 (found when the checks began to rotate the ambient decimal precision)"),
     ("C15", "fix: AutoDecoder let decoder errors", "KeyError/IndexError/AttributeError/TypeError/OverflowError escaped AutoDecoder (Kamstrup OBIS octet change, Kaifa length change, Kaifa SE frame tried by the Kamstrup decoder, date-time hour 0xFF, P1 value inf)"),
 ]
 entries = []
